@@ -28,6 +28,7 @@ RULE = (
     "duplicate, out-of-order or missing event or a re-scan AND >= 1 expiry."
     ' Further dimensions: watched directory named relative to the current directory, time windows (aware / naive), construction through the `drf ringbuffer` command line, verbose reports, negative size (all space except N) with a fixed file-system report, recordings at the epoch (time key 0); three LIVE scenarios with DigitalRFRingbuffer.start() and the real observer threads (sentinel protocol of vlib/live.py).'
 )
+RULE += ' Since rounds 7-8: files with a second hard link outside the tree, future-dated / old files at a live start, renames at the exact limit.'
 ASSUMPTIONS = ["events are dispatched synchronously through handler.dispatch; no observer thread runs",
                "the size limit is at least the sum over groups of the largest file size (the property's quantifier)"]
 FLOORS = {"nontrivial": 0.3}
